@@ -127,3 +127,30 @@ func (p *VerifWorkerPool) AddStalledIdle() *VerifWorkerChan {
 
 // TakeNil receives from the channel of a worker made by AddStalledIdle; it reports whether nil arrived.
 func (p *VerifWorkerPool) TakeNil(ch *VerifWorkerChan) bool { return <-ch.ch == nil }
+
+// StartNoCleanerCap is StartNoCleaner with an explicit capacity of the worker channels of THIS pool
+// (0 = the unbuffered channels workerChanCap yields under GOMAXPROCS=1), without touching the package variable.
+func (p *VerifWorkerPool) StartNoCleanerCap(chanCap int) {
+	p.wp.stopCh = make(chan struct{})
+	p.wp.workerChanPool.New = func() any {
+		return &workerChan{ch: make(chan net.Conn, chanCap)}
+	}
+}
+
+// AddStalledIdleCounted is AddStalledIdle for a worker that owns a workersCount slot: the harness plays a real
+// worker that has called release (it is in ready with the given lastUseTime) but has not yet parked on its channel.
+func (p *VerifWorkerPool) AddStalledIdleCounted(lastUse time.Time) *VerifWorkerChan {
+	ch := &workerChan{ch: make(chan net.Conn), lastUseTime: lastUse}
+	p.wp.lock.Lock()
+	p.wp.workersCount++
+	p.wp.ready = append(p.wp.ready, ch)
+	p.wp.lock.Unlock()
+	return ch
+}
+
+// StalledExit performs the tail of workerFunc for a worker made by AddStalledIdleCounted (workersCount--).
+func (p *VerifWorkerPool) StalledExit() {
+	p.wp.lock.Lock()
+	p.wp.workersCount--
+	p.wp.lock.Unlock()
+}
